@@ -11,7 +11,7 @@ def key_of(line):
     if line["op"] == "combine":
         return "cache:combine"
     if line["op"] == "xverify":
-        return "cache:verify:batch-digest"
+        return "cache:verify:" + line.get("of", "batch-digest")
     s = line["sig"]
     kind = "label" if (s["t"] == "multi" and any(e[0] != e[1] for e in s["e"])) or (s["t"] == "bls" and sorted(s["bits"]) != sorted({e[1] for e in s["e"]})) else "message"
     return "cache:%s:%s" % (line["op"], kind)
@@ -86,7 +86,7 @@ def run(tier, seed):
         "traces_validated_against_impl": ops.get("new", 0),
         "samples": [x for x in rows[:40] if x["op"] in ("verify", "batch")][:3],
         "evaluations": len(rows), "distinct_nontrivial": len({str(x.get("key")) + str(x.get("vu")) for x in rows if x["op"] in ("verify", "batch")}),
-        "rule": "seeded operation sequences (sign, verify, batch-verify, combine, list signatures re-cut at another entry boundary, overlapping verify/batch-verify calls for one signature, each started while "
+        "rule": "seeded operation sequences (sign, verify, batch-verify, combine, list signatures re-cut at another entry boundary, combinations with a signature over another message (then verified), overlapping verify/batch-verify calls for one signature, each started while "
                 "the earlier ones are inside the scheme's verification; replays with altered message, batch, view and signer labels) on a cached "
                 "(capacity 1..4 or 50) and an uncached real Authority of the same replica, ECDSA/EdDSA/BLS; distinct = distinct (cache key, verdict)",
         "ops": ops, "conformance": "ok" if not drift else "drift %s" % (drift,),
